@@ -224,8 +224,22 @@ def write_summary_file_vue(stats, filepath, year=2025, currency_format="${amount
         return filter_expr.replace('==', '=').replace('&&', ' and ').replace('||', ' or ')
 
     # Helper function to create merchant IDs
+    merchant_ids = {}   # merchant name -> id (stable within one report)
+    used_ids = set()
+
     def make_merchant_id(name):
-        return name.replace("'", "").replace('"', '').replace(' ', '_')
+        if name in merchant_ids:
+            return merchant_ids[name]
+        base = name.replace("'", "").replace('"', '').replace(' ', '_')
+        # Different names can reduce to the same id ("A B" / "A_B", "O'Neil" / "ONeil");
+        # ids key the report's data, so a collision would drop one of the merchants
+        candidate, n = base, 2
+        while candidate in used_ids:
+            candidate = f"{base}_{n}"
+            n += 1
+        used_ids.add(candidate)
+        merchant_ids[name] = candidate
+        return candidate
 
     # Build section merchants data
     def build_section_merchants(merchant_dict):
